@@ -49,10 +49,29 @@ namespace pika::verif {
         }
         ~scope() { emit(2, site_, obj_, before_, static_cast<std::uint64_t>(f_())); }
     };
+
+    // RAII note: POST(site, obj, f(), 0) at scope exit (nothing at construction).  Declared right
+    // after a std::unique_lock it is destroyed - and therefore logged - just before the unlock.
+    template <typename F>
+    struct exit_note
+    {
+        char const* site_;
+        void const* obj_;
+        F f_;
+        exit_note(char const* site, void const* obj, F f) noexcept
+          : site_(site)
+          , obj_(obj)
+          , f_(f)
+        {
+        }
+        ~exit_note() { emit(2, site_, obj_, static_cast<std::uint64_t>(f_()), 0); }
+    };
 }    // namespace pika::verif
 
 # define PIKA_VERIF_SCOPE(site, obj, expr)                                                         \
   ::pika::verif::scope pika_verif_scope_(site, static_cast<void const*>(obj), [&]() noexcept { return (expr); })
+# define PIKA_VERIF_EXIT(site, obj, expr)                                                          \
+  ::pika::verif::exit_note pika_verif_exit_(site, static_cast<void const*>(obj), [&]() noexcept { return (expr); })
 # define PIKA_VERIF_POINT(site, obj, a, b)                                                         \
   ::pika::verif::emit(0, site, static_cast<void const*>(obj), static_cast<std::uint64_t>(a),      \
       static_cast<std::uint64_t>(b))
@@ -68,5 +87,6 @@ namespace pika::verif {
 # define PIKA_VERIF_PRE(site, obj) ((void) 0)
 # define PIKA_VERIF_POST(site, obj, a, b) ((void) 0)
 # define PIKA_VERIF_SCOPE(site, obj, expr) ((void) 0)
+# define PIKA_VERIF_EXIT(site, obj, expr) ((void) 0)
 
 #endif
